@@ -78,6 +78,12 @@ def solve_bin_pack(
     else:
         indices = list(range(n))
 
+    # The running remainders pick up float residue (1.0 - 0.3 - 0.3 - 0.3 is a hair below 0.1): an item that fills a
+    # bin exactly must still fit, so the fit tests allow for rounding at the scale of the capacity. Integral data is
+    # subtracted exactly and gets no allowance.
+    integral = float(bin_capacity).is_integer() and all(float(size).is_integer() for size in item_sizes)
+    tol = 0.0 if integral else 1e-12 * bin_capacity
+
     # Bins: list of (remaining_capacity, [item_indices])
     bins: list[tuple[float, list[int]]] = []
     assignments = [0] * n  # assignments[item] = bin_index
@@ -99,13 +105,13 @@ def solve_bin_pack(
             # Find bin with least remaining space that still fits
             best_remaining = float("inf")
             for b, (remaining, _) in enumerate(bins):
-                if size <= remaining < best_remaining:
+                if size <= remaining + tol and remaining < best_remaining:
                     best_remaining = remaining
                     best_bin = b
         else:
             # First-fit: find first bin that fits
             for b, (remaining, _) in enumerate(bins):
-                if size <= remaining:
+                if size <= remaining + tol:
                     best_bin = b
                     break
 
